@@ -6,13 +6,34 @@ use std::cell::Cell;
 
 thread_local! {
     static COUNT: Cell<usize> = const { Cell::new(0) };
+    static PAUSED: Cell<usize> = const { Cell::new(0) };
+}
+
+/// While a `Pause` is alive, allocations of the current thread are not counted: the harness's own
+/// byte source and recording policy run inside the measured reader calls and must not be charged
+/// to the reader.
+pub struct Pause;
+
+impl Pause {
+    pub fn new() -> Pause {
+        let _ = PAUSED.try_with(|c| c.set(c.get() + 1));
+        Pause
+    }
+}
+
+impl Drop for Pause {
+    fn drop(&mut self) {
+        let _ = PAUSED.try_with(|c| c.set(c.get().saturating_sub(1)));
+    }
 }
 
 pub struct Counting;
 
 fn bump() {
     // `try_with`: the allocator may be called while the thread-local is being destroyed
-    let _ = COUNT.try_with(|c| c.set(c.get() + 1));
+    if PAUSED.try_with(|c| c.get()).unwrap_or(0) == 0 {
+        let _ = COUNT.try_with(|c| c.set(c.get() + 1));
+    }
 }
 
 unsafe impl GlobalAlloc for Counting {
